@@ -62,13 +62,18 @@ type VerifNode struct {
 	Children []VerifNode
 	Addr     uintptr
 	Kids     uintptr // 0 when the node has no children
+	// what newNode precomputes from the children
+	ChildKeys     string
+	ParamChild    int // index of the {param} child, -1 if none
+	WildcardChild int // index of the *{catchall} child, -1 if none
 }
 
 func verifCopyRoots(rs roots) map[string]VerifNode {
 	out := make(map[string]VerifNode, len(rs))
 	var cp func(n *node) VerifNode
 	cp = func(n *node) VerifNode {
-		v := VerifNode{Key: n.key, Addr: uintptr(unsafe.Pointer(n))}
+		v := VerifNode{Key: n.key, Addr: uintptr(unsafe.Pointer(n)), ChildKeys: string(n.childKeys),
+			ParamChild: n.paramChildIndex, WildcardChild: n.wildcardChildIndex}
 		if n.route != nil {
 			v.Route = n.route.pattern
 		}
